@@ -91,6 +91,13 @@ UsedPrefixes(rules) == UNION {CASE rules[i].k = "style" -> UNION {PrefixesOf(rul
 NsUris(sheet, p) == {sheet[i].uri : i \in {j \in 1..Len(sheet) : sheet[j].k = "namespace" /\ sheet[j].prefix = p}}
 UsedUris(sheet) == UNION {NsUris(sheet, p) : p \in UsedPrefixes(sheet)}
 
+\* ---- comments inside a selector or inside the prelude of an unknown at-rule (vocabulary of the generator): dropping the comment
+\* ---- leaves the white space around it, so the tokens it separated stay separate
+StripSel == [s \in {"a /*c*/b", "a/*c*/ b"} |-> "a b"]
+StripUnknown == [t \in {"@x y /*c*/ z;"} |-> "@x y z;"]
+NoCommentSel(s) == IF s \in DOMAIN StripSel THEN StripSel[s] ELSE s
+NoCommentText(t) == IF t \in DOMAIN StripUnknown THEN StripUnknown[t] ELSE t
+
 \* ---- rules: the result is a sequence of zero or one rule ----------------------------------------------------------------------
 \* Dv is a set of NAMED DEVIATIONS of the implementation from the documented effect; the contract is Dv = {}.
 \*   "empty-nonstyle-never-kept"  an @page, margin, @font-face rule with nothing in it is dropped even when keepEmptyRules is on
@@ -106,7 +113,9 @@ RECURSIVE EffRule(_, _, _, _)
 EffRules(Dv, P, S, rules) == FlattenSeq([i \in 1..Len(rules) |-> EffRule(Dv, P, S, rules[i])])
 EffRule(Dv, P, S, r) ==
     LET V == VarDecls(S)
-        r2 == CASE r.k = "style"    -> [r EXCEPT !.body = EffBody(P, V, "style", @)]
+        r2 == CASE r.k = "style"    -> [r EXCEPT !.body = EffBody(P, V, "style", @),
+                                                 !.sels = IF P.keepComments THEN @ ELSE [i \in 1..Len(@) |-> NoCommentSel(@[i])]]
+                [] r.k = "unknown"  -> [r EXCEPT !.text = IF P.keepComments THEN @ ELSE NoCommentText(@)]
                 [] r.k = "fontface" -> [r EXCEPT !.body = EffBody(P, V, "fontface", @)]
                 [] r.k = "page"     -> [r EXCEPT !.body = EffBody(P, V, "page", @), !.margins = EffMargins(Dv, P, V, @)]
                 [] r.k = "media"    -> [r EXCEPT !.rules = EffRules(Dv, P, S, @)]
